@@ -996,7 +996,7 @@ def unit(root='/repo'):
                          HP + 'rd_entries(%s, %s, offset, %s, *ctx, is_readdirplus, %s, %s) // [C10.view.do_readdir.entries] call j offers entry offset + j of [".", "..", visible children in table order]: its own name, the st_ino / type of its node\'s attributes, its node\'s OWN number (READDIRPLUS), and the offset that resumes right after it' % (CALLS, ES0, H0, AT, ET),
                          HP + 'rd_order(%s) && rd_noskip(%s, %s.len(), offset, size, %s, res) // [C10.view.do_readdir.no_skip] nothing is offered after an entry that was not taken (Ok(0) = no room); a successful call stops early only for that reason or because the bytes reported reach `size`; an offset at or beyond the end: empty reply' % (CALLS, CALLS, ES0, USED),
                          HP + 'rd_err(%s, res) // [C10.view.do_readdir.err] a failure of the callback is returned only when nothing was delivered' % CALLS,
-                         HP + 'is_readdirplus ==> final(vxv).ctr == bump_calls(old(vxv).ctr, %s, offset, %s, false) // [C10.view.do_readdir.plus_refs_offered] what the code does: one reference per entry OFFERED' % (ES0, CALLS),
+                         HP + 'is_readdirplus ==> final(vxv).ctr == bump_calls(old(vxv).ctr, %s, offset, %s, false) // [pin.view.do_readdir.plus_refs_offered] what the code does: one reference per entry OFFERED' % (ES0, CALLS),
                          # (a clause [C10.view.do_readdir.plus_refs] - a reference for exactly the entries DELIVERED - was stated here at first; C10 says nothing about lookup references
                          #  of the overlay, so it demanded more than the property: removed.  That READDIRPLUS keeps the reference of an entry the callback refused is recorded as an
                          #  observation (V2, findings/repro_overlay_view.rs::v2), the same pattern as D17 in the passthrough file system.)
